@@ -29,6 +29,10 @@ package abft
 //@ ghost gApplyEpoch int
 //@ ghost gApplyRes *pos.Validators
 //@ ghost nLoaded int
+//@ // idxFlushed / idxPending / idxAddN: abstract state of the DAG index (see C07 below)
+//@ ghost idxFlushed int
+//@ ghost idxPending int
+//@ ghost idxAddN int
 //@ // gConf[id]: frame on which the event was confirmed (0 = not confirmed; what Get/SetEventConfirmedOn keep in the epoch DB);
 //@ // gDeliv[id]: number of times the event was handed to the application's ApplyEvent in this epoch
 //@ ghost gConf[hash.Event] int
@@ -379,3 +383,45 @@ package abft
 //@   loop 1 invariant 0 <= _k && _k <= len(_range) && arrfresh(cheaters, old(_alloc)) && len(cheaters) == ccount(p, atropos, _k)
 //@   loop 1 invariant forall(i, 0, _k, cheat(p, atropos, i) ==> cheaters[ccount(p, atropos, i)] == _range[i])
 //@   loop 1 hint unfold ccount(p, atropos, _k); use ccount_bounds(p, atropos, _k); use ccount_lt(p, atropos, _k - 1)
+//@
+//@ // ---- built / rejected events leave no trace (C07) ----
+//@ // Abstract model of the DAG index as seen by IndexedLachesis: idxFlushed events are durably indexed, idxPending
+//@ // events were added since the last Flush/DropNotFlushed.
+//@ iface DagIndexer.Add
+//@   modifies idxPending, idxAddN
+//@   ghost idxAddN = old(idxAddN) + 1
+//@   ghost idxPending = ite(result == nil, old(idxPending) + 1, old(idxPending))
+//@ iface DagIndexer.Flush
+//@   modifies idxFlushed, idxPending
+//@   ghost idxFlushed = old(idxFlushed) + old(idxPending)
+//@   ghost idxPending = 0
+//@ iface DagIndexer.DropNotFlushed
+//@   modifies idxPending
+//@   ghost idxPending = 0
+//@ package github.com/Fantom-foundation/lachesis-base/inter/dag
+//@ iface MutableEvent.SetID
+//@   params id
+//@ package github.com/Fantom-foundation/lachesis-base/abft
+//@
+//@ // Build: whatever happens, nothing stays in the index (the temporary event is dropped) and nothing is flushed;
+//@ // the consensus store is not touched
+//@ func (*IndexedLachesis).Build
+//@   requires p != nil && p.Lachesis != nil && p.Lachesis.Orderer != nil && p.dagIndexer != nil && e != nil && idxPending == 0
+//@   requires p.Lachesis.store != nil && p.Lachesis.input != nil && p.Lachesis.Orderer.dagIndex != nil && p.Lachesis.crit != nil
+//@   requires p.uniqueDirtyID.counter != nil && bigv[common.Big1] == 1 && common.Big1 != nil && 0 <= bigv[p.uniqueDirtyID.counter] && bigv[p.uniqueDirtyID.counter] + 1 < P192
+//@   requires spframe(p.Lachesis.Orderer, e) <= 2147483546 && e.Frame() <= 2147483646
+//@   modifies idxPending, idxAddN, gSetFrameN, gSetFrameEv, gSetFrameV, bigv[p.uniqueDirtyID.counter], p.uniqueDirtyID.counter
+//@   ensures  [notrace] idxPending == 0 && idxFlushed == old(idxFlushed) && idxAddN == old(idxAddN) + 1
+//@   ensures  [store] nAddRoot == old(nAddRoot) && nApply == old(nApply) && stEpoch == old(stEpoch) && stLDF == old(stLDF) && stValidators == old(stValidators)
+//@
+//@ // Process: a failing Process drops what it added to the index and flushes nothing; a rejected frame changes
+//@ // nothing in the store; only a successful Process flushes exactly its event
+//@ func (*IndexedLachesis).Process
+//@   requires p != nil && p.Lachesis != nil && oinv(p.Lachesis.Orderer) && p.dagIndexer != nil && e != nil && idxPending == 0
+//@   requires p.Lachesis.input != nil && p.Lachesis.Orderer.dagIndex != nil && p.Lachesis.crit != nil && stEpoch < 4294967295
+//@   requires spframe(p.Lachesis.Orderer, e) <= 2147483646 && e.Frame() <= 2147483646
+//@   modifies idxPending, idxFlushed, idxAddN, groots[*], nAddRoot, gAddRootSpf, gAddRootEv, nApply, gSealN, gApplyFrame, gApplyEpoch, gApplyRes, nLoaded, gLoadedEpoch, stLDF, stEpoch, stValidators, p.Lachesis.Orderer.election.validators, p.Lachesis.Orderer.election.frameToDecide, p.Lachesis.Orderer.election.votes, p.Lachesis.Orderer.election.decidedRoots, p.Lachesis.Orderer.election.votes[*], p.Lachesis.Orderer.election.decidedRoots[*], gObs
+//@   ensures  [notrace] idxPending == 0
+//@   ensures  [failed] result != nil ==> idxFlushed == old(idxFlushed)
+//@   ensures  [ok] result == nil ==> idxFlushed == old(idxFlushed) + 1
+//@   ensures  [rejected] old(idxAddN) + 1 == idxAddN && !old(accept(p.Lachesis.Orderer, e)) ==> result != nil && nAddRoot == old(nAddRoot) && nApply == old(nApply) && stEpoch == old(stEpoch) && stLDF == old(stLDF) && stValidators == old(stValidators)
